@@ -18,7 +18,7 @@ for p in sorted(glob.glob(os.path.join(ROOT, "seeded", "*", "meta.json"))):
     summ = re.sub(r"\s+", " ", m.get("summary") or "")[:170]
     files = ", ".join(f.replace("src/", "") for f in (m.get("files_changed") or []))
     rows.append(f"| {name} | {files} | {summ} | {chk.get('verdict','?')}: {first} | {also or '–'} | {silent or '–'} |")
-text = f"""One hundred and sixty changes were produced in four rounds by fresh sub-agents (twenty agents per
+text = f"""Two hundred changes were produced in five rounds by fresh sub-agents (twenty agents per
 round, two changes per property and round; from round 2 on each agent was told which
 ideas round 1 had used and asked for different functions, drivers and kinds of mistake), each given
 only the property text and its own scratch worktree of `/repo` — nothing from `/verif`.  Each change
@@ -26,8 +26,8 @@ compiles, passes the 57 existing tests, and comes with a demonstration that fail
 without it; all of that was re-confirmed by `tools/seed_eval.py` in a scratch worktree (build with and
 without the guard, suite, demonstration both ways) before the checks were run against it.  They are kept
 under `seeded/<id>/` (`patch.diff`, the demonstration, `meta.json` with what was run and the verdicts;
-ids `Cxx-1/2` = round 1, `Cxx-3/4` = round 2, `Cxx-5/6` = round 3, `Cxx-7/8` = round 4; the agents of
-rounds 3 and 4 were additionally asked
+ids `Cxx-1/2` = round 1, `Cxx-3/4` = round 2, `Cxx-5/6` = round 3, `Cxx-7/8` = round 4, `Cxx-9/10` = round 5; the agents of
+rounds 3 to 5 were additionally asked
 for changes that would slip past a differential test driven by mostly well-formed random sequences
 and a simple device model: single feature combinations or transports, behaviour after an error
 path, numeric boundaries, interleavings of two queues or of blocking and non-blocking calls, unusual
@@ -102,8 +102,35 @@ concrete, 5 `no-failing-input-found` (C05-8, C11-7, C13-8, C14-7, C20-8: only th
 | C14-7 `flush` skipped on read-only devices | only the model disagreed | oracle: with FLUSH negotiated, `Ok` requires that a flush request reached the device |
 | C20-8 9P reply buffer of exactly 7 bytes refused | only the model disagreed | oracle: a request with a 7-byte reply buffer must be emitted |
 
-Check bugs that surfaced on the way: §9, 13–17.  All 160 are now reported with a
-concrete replay by the check of their own property (re-run after the comparison changes of §9.16).  The last two
+Round 5 (asked in addition to read the statement clause by clause and to look for code far from the
+anchors: helpers, trait default methods, wrappers, `Drop` impls, constants, conversions), first pass:
+21 of 40 concrete, 8 `no-failing-input-found`, 10 missed, and one (C09-9) made the harness process
+itself die with SIGSEGV, which at that time was reported without a failing input:
+
+| missed | why | added |
+|---|---|---|
+| C01-9 `VirtQueue::new` registers the queue with the device's maximum size instead of `SIZE` (model only) | the queue streams used devices whose maximum equals `SIZE` | two thirds of the live queues sit on devices offering 2·`SIZE` or 32768 entries; the registered size must be `SIZE` |
+| C02-9 PCI `queue_set` never writes `queue_size` | C02 did not look at the PCI registers | register oracle in C11's stream (size and the three addresses the caller passed are written), run by C02 and C06 as well |
+| C02-10 blocking request withdraws its chain (available index decremented) when another completion ends its wait | the foreign-completion histories of round 4 ran in C01/C03/C04/C05 only | C02 runs them too (per-store oracle: the index only ever advances by one) |
+| C03-10 `add` counts its buffers in `u16` | no submission of 65 536 buffers or more | one case in 25 submits 65536/65537/65539/131073 one-byte buffers: refused without side effects (model op `add_many`) |
+| C04-10 `pcm_xfer_ok` takes its buffers out of the maps before `pop_used` succeeds | C04 did not run the sound stream (C07 and C09 did and caught the same change as C07-9) | C04 runs it (heap watch: driver-owned buffers released while shared) |
+| C06-9 legacy MMIO `QueueAlign` written once at initialisation instead of per queue | C06 had no register-level device | C06 runs the MMIO construction stream; the device model keeps `QueueAlign` per queue, clears it with the queue and checks it when the page frame is registered |
+| C08-9 `set_dev_notify(true)` writes `used_event` without EVENT_IDX (model only) | no oracle on that field | per-store oracle: `used_event` changes only on queues that negotiated EVENT_IDX |
+| C08-10 clock driver accepts ALARM; C14-10 block driver accepts IN_ORDER (model only; the regenerated feature table would have followed the code) | nothing said what a driver may accept | the implemented feature set of every driver, written down independently: oracle on every construction and theorem `supported_within_implemented` over the regenerated table; C14 runs the block rows |
+| C09-9 net `recycle_rx_buffer` drops a buffer it has just posted | the harness died of the resulting use-after-free | `check` pins a dead or hung harness on the cases that were in flight (re-run one by one): concrete replay "the process running the implementation was killed by signal 11 in case …" |
+| C09-10 net constructor reads `status` after `finish_init` (model only) | configuration space was complete or absent | construction against configuration spaces cut off at every length, all drivers: a failing constructor must not release queue memory while the device is live |
+| C13-9 `read_consistent` gives up after 16 retries | at most three updates per read were scheduled | update storms (an update before each of the first 17·n / 41·n reads, configurations cycling); theorem `scheduleCyc_contract` |
+| C13-10 the last device-configuration capability defines the window | the PCI function had one | a second, larger device-configuration capability further down the list |
+| C14-9 PCI configuration bounds check refuses a read that ends exactly at the end of the window (model only in C14) | C14 had the capacity read only through full-size windows | C14 runs C13's window sweep |
+| C15-9 `can_pop` compares with `>` | no console case lived for 65 536 completions | long-run epilogue: 66 000 one-byte chunks read one by one |
+| C15-10 `read` re-posts the buffer and copies the next chunk without advancing the cursor (model only) | needs a device that refills at the notification inside `read` | such a device is armed whenever `read` is called with data pending |
+| C16-9 `transmit_begin` consults the receive queue's suppression state | C16 never suppressed the two queues differently, and lost notifications were C05's business only | every driver check runs its rows of C05's notification matrix; a lost notification counts in the driver's own check |
+| C19-10 sound events parsed with `ref_from_bytes` (fails on unaligned buffers, silently) | the host allocator aligns byte buffers to 16 | the harness allocator hands out byte buffers (`align == 1`) at odd addresses |
+| C20-10 tear-down decided by `rect.is_some()` (model only) | sequencing complaints were dropped after a device error | oracle: detach/unref/attach only for a resource whose creation the device acknowledged |
+
+Check bugs that surfaced on the way: §9, 13–17.  All 200 are now reported with a
+concrete replay by the check of their own property; the 120 of rounds 1–3 were re-run after the
+comparison changes of §9.16 (`out/reeval.log`).  The last two
 columns come from running further related checks against a change (`tools/seed_cross.py`, run for part
 of round 1 only); † = reported as `no-failing-input-found`.
 
